@@ -35,6 +35,7 @@ type pipeEnd struct {
 	eof     bool // peer closed
 	closed  bool // this end closed
 	notify  chan struct{}
+	wnotify chan struct{} // wakes a writer blocked because the peer has stopped reading (a reader may be waiting on notify)
 	rdl     time.Time
 	wdl     time.Time
 	blockW  bool
@@ -45,8 +46,8 @@ type pipeEnd struct {
 }
 
 func newPipe(client, server net.Addr) (*pipeEnd, *pipeEnd) {
-	c := &pipeEnd{notify: make(chan struct{}, 1), laddr: client, raddr: server}
-	s := &pipeEnd{notify: make(chan struct{}, 1), laddr: server, raddr: client}
+	c := &pipeEnd{notify: make(chan struct{}, 1), wnotify: make(chan struct{}, 1), laddr: client, raddr: server}
+	s := &pipeEnd{notify: make(chan struct{}, 1), wnotify: make(chan struct{}, 1), laddr: server, raddr: client}
 	c.peer, s.peer = s, c
 
 	return c, s
@@ -55,6 +56,10 @@ func newPipe(client, server net.Addr) (*pipeEnd, *pipeEnd) {
 func (p *pipeEnd) kick() {
 	select {
 	case p.notify <- struct{}{}:
+	default:
+	}
+	select {
+	case p.wnotify <- struct{}{}:
 	default:
 	}
 }
@@ -119,7 +124,7 @@ func (p *pipeEnd) Write(b []byte) (int, error) {
 			return 0, os.ErrDeadlineExceeded
 		}
 		p.mu.Unlock()
-		<-p.notify
+		<-p.wnotify
 	}
 	q := p.peer
 	q.mu.Lock()
@@ -268,6 +273,8 @@ type tcpClient struct {
 	half     []byte
 	rx       []byte   // bytes received from the mux
 	wantRx   [][]byte // payloads the mux must have written to this client
+	srv      *pipeEnd // the mux's end of the stream
+	stopped  bool     // the client has stopped reading: writes towards it block in the stream
 }
 
 type tcpRefConn struct {
@@ -329,6 +336,10 @@ func newTCPModel(raw json.RawMessage) *tcpModel {
 		tm.front = NewMultiTCPMuxDefault(tm.m)
 	}
 	synctest.Wait()
+	for _, ev := range tm.cfg.Preset {
+		tm.Apply(ev)
+	}
+	tm.depth = 0
 
 	return tm
 }
@@ -361,6 +372,17 @@ func (tm *tcpModel) Enabled() []string {
 			evs = append(evs, fmt.Sprintf("send:%d", i), fmt.Sprintf("half:%d", i))
 		case cl.sent == 0:
 			evs = append(evs, fmt.Sprintf("send:%d", i))
+		}
+	}
+	if tm.cfg.StopRead {
+		for i, cl := range tm.clients {
+			switch {
+			case cl.selfDone || cl.done || cl.attached == 0:
+			case cl.stopped:
+				evs = append(evs, fmt.Sprintf("resume:%d", i))
+			default:
+				evs = append(evs, fmt.Sprintf("stopread:%d", i))
+			}
 		}
 	}
 	evs = append(evs, "adv15")
@@ -435,7 +457,7 @@ func (tm *tcpModel) Apply(ev string) {
 			caddr.IP = net.ParseIP("192.0.2.9").To16()
 		}
 		c, s := newPipe(caddr, tm.lis.addr)
-		cl := &tcpClient{kind: f[1], end: c, addr: caddr.String(), accepted: time.Now()}
+		cl := &tcpClient{kind: f[1], end: c, srv: s, addr: caddr.String(), accepted: time.Now()}
 		tm.clients = append(tm.clients, cl)
 		tm.lis.ch <- s
 		wire, payload, ufrag := c15first(f[1])
@@ -588,7 +610,13 @@ func (tm *tcpModel) Apply(ev string) {
 		for _, rc := range tm.all {
 			live = live || (rc.gen == rd.gen && rc.alive && cl.attached == rc.gen && !cl.done)
 		}
-		if live {
+		if live && cl.stopped {
+			// the stream takes nothing: the reply is queued (nil) or refused because the write buffer is full; what was
+			// refused must never reach the client, not even in part
+			if err == nil {
+				cl.wantRx = append(cl.wantRx, payload)
+			}
+		} else if live {
 			if err != nil {
 				tm.problem("", "reply to client %d over its own stream failed: %v", i, err)
 			}
@@ -596,6 +624,14 @@ func (tm *tcpModel) Apply(ev string) {
 		} else if err == nil {
 			tm.problem("", "a reply to %s was accepted although that client is not attached to this connection", cl.addr)
 		}
+	case "stopread", "resume":
+		i, _ := strconv.Atoi(f[1])
+		cl := tm.clients[i]
+		cl.stopped = f[0] == "stopread"
+		cl.srv.mu.Lock()
+		cl.srv.blockW = cl.stopped
+		cl.srv.mu.Unlock()
+		cl.srv.kick()
 	case "remove":
 		tm.front.RemoveConnByUfrag(f[1])
 		tm.killConn(tm.conns[f[1]])
@@ -674,7 +710,14 @@ func (tm *tcpModel) check() {
 		for _, p := range cl.wantRx {
 			want = append(want, c15frame(p)...)
 		}
-		if string(cl.rx) != string(want) {
+		if cl.stopped || (cl.done && tm.cfg.StopRead) {
+			// nothing more arrives while the client does not read (or after its stream ended with replies still queued); what
+			// has arrived is a prefix of the accepted replies, cut at a frame boundary or inside the frame the stream took last
+			if !strings.HasPrefix(string(want), string(cl.rx)) {
+				tm.problem("", "client %d (not reading) holds %d byte(s) that are not a prefix of the framed replies accepted for it", i, len(cl.rx))
+				cl.wantRx, cl.rx = nil, nil
+			}
+		} else if string(cl.rx) != string(want) {
 			tm.problem("", "client %d received %d byte(s) from the mux, expected %d (framed replies addressed to it)", i, len(cl.rx), len(want))
 			cl.wantRx, cl.rx = nil, nil
 		}
@@ -714,7 +757,12 @@ func (tm *tcpModel) Key() (string, []int) {
 		if age > 2 {
 			age = 2
 		}
-		cs = append(cs, fmt.Sprintf("%d:%s att=%d done=%v self=%v sent=%d half=%v age=%d", i, cl.kind, cl.attached, cl.done, cl.selfDone, cl.sent, cl.half != nil, age))
+		queued := 0 // accepted replies the client has not received yet (they sit in the write buffer or in the blocked write)
+		for _, w := range cl.wantRx {
+			queued += len(w) + 2
+		}
+		queued -= len(cl.rx)
+		cs = append(cs, fmt.Sprintf("%d:%s att=%d done=%v self=%v sent=%d half=%v age=%d stop=%v q=%d", i, cl.kind, cl.attached, cl.done, cl.selfDone, cl.sent, cl.half != nil, age, cl.stopped, queued))
 	}
 	var rs []string
 	for _, rc := range tm.all {
@@ -792,6 +840,8 @@ func checkC15(c *runCtx) {
 	}
 	vtSearch(c, p, vtSpec{Name: fmt.Sprintf("TCPMuxDefault, all sequences of length <= %d, <= 3 clients of 10 kinds", depth), Model: "tcpmux", Cfg: muxCfg{Depth: depth}, Deadline: dl})
 	vtSearch(c, p, vtSpec{Name: fmt.Sprintf("TCPMuxDefault with a write buffer, all sequences of length <= %d", depth-1), Model: "tcpmux", Cfg: muxCfg{Depth: depth - 1, WriteBuffer: 4096}, Deadline: dl})
+	vtSearch(c, p, vtSpec{Name: fmt.Sprintf("TCPMuxDefault with a 24-byte write buffer and a client that stops reading (replies queue up, the buffer fills, the client resumes), from one attached client with an open handle, all sequences of length <= %d", depth), Model: "tcpmux",
+		Cfg: muxCfg{Depth: depth, WriteBuffer: 24, StopRead: true, Preset: []string{"accept:u1", "get:u1"}}, Deadline: dl})
 	vtSearch(c, p, vtSpec{Name: fmt.Sprintf("MultiTCPMuxDefault in front of the mux, all sequences of length <= %d", depth-2), Model: "tcpmux", Cfg: muxCfg{Depth: depth - 2, Kind: "multi"}, Deadline: dl})
 	vtSearch(c, p, vtSpec{Name: fmt.Sprintf("listener and streams report IPv4 addresses in 16-byte form (dual-stack socket), all sequences of length <= %d", depth-2), Model: "tcpmux", Cfg: muxCfg{Depth: depth - 2, Kind: "mapped"}, Deadline: dl})
 	if os.Getenv("VERIF_VARIANT") == "instr" {
